@@ -127,6 +127,7 @@ class Run(ExtraOps):
         self.mat_entries = {}
         self.ill_routes = set()
         self.in_recovery = False
+        self.shared_ops = {}
         self.payload_content = {}
         self._keep_nodes = []
         self.commute_matrix = Counter()
@@ -502,6 +503,25 @@ class Run(ExtraOps):
     def _sqlr(self, t, op):
         return op.get("pe"), op.get("bt", True)
 
+    def _only2_ok(self, t, op):
+        """`only2` is registered in engine it2 only: usable where the operation certainly runs in it2."""
+        u = set()
+        if "e" in op:
+            u |= expr_udfs(op["e"])
+        if op.get("p") is not None:
+            u |= pred_udfs(op["p"])
+        for tm in op.get("terms", []):
+            u |= expr_udfs(tm[0])
+        return "only2" not in u or (t.mv.engine == "it2" and op.get("pe") in (None, "it2"))
+
+    def shared_apply(self, op, t, make):
+        """Apply through an operation *object* shared by every call with the same arguments in this run
+        (UnaryOperation.apply is public API; users keep operation objects around)."""
+        k = json.dumps({x: op[x] for x in op if x not in ("t", "pe", "bt", "tr", "rq", "faults", "shared")}, sort_keys=True)
+        if k not in self.shared_ops:
+            self.shared_ops[k] = make()
+        return self.shared_ops[k].apply(t.rel, **self.flags(op))
+
     def op_calc(self, op):
         t = self.ref(op["t"])
         if t is None:
@@ -510,11 +530,20 @@ class Run(ExtraOps):
         need = expr_cols(op["e"])
         if not need or not need <= cols or op["tag"] in cols:
             return self.alias(op, t, "illtyped")
+        if not self._only2_ok(t, op):
+            return self.alias(op, t, "illtyped")
         tags = self.w.tags
         pe, bt = self._sqlr(t, op)
+        from lsst.daf.relation import Calculation, Deduplication, Projection, Selection, Slice, Sort
+
+        def call():
+            if op.get("shared"):
+                return self.shared_apply(op, t, lambda: Calculation(tags[op["tag"]], build_expr(op["e"], tags)))
+            return t.rel.with_calculated_column(tags[op["tag"]], build_expr(op["e"], tags), **self.flags(op))
+
         self.factory(
             op, [t],
-            lambda: t.rel.with_calculated_column(tags[op["tag"]], build_expr(op["e"], tags), **self.flags(op)),
+            call,
             lambda rel: self._umodel(t, op, rel, lambda v: M.m_calc(v, op["tag"], op["e"], pe, bt)),
         )
 
@@ -531,7 +560,9 @@ class Run(ExtraOps):
         pe, bt = self._sqlr(t, op)
         self.factory(
             op, [t],
-            lambda: t.rel.with_only_columns({tags[c] for c in want}, **self.flags(op)),
+            (lambda: self.shared_apply(op, t, lambda: __import__("lsst.daf.relation", fromlist=["Projection"]).Projection(
+                frozenset(tags[c] for c in want)))) if op.get("shared") else
+            (lambda: t.rel.with_only_columns({tags[c] for c in want}, **self.flags(op))),
             lambda rel: self._umodel(t, op, rel, lambda v: M.m_proj(v, want, pe, bt)),
         )
 
@@ -539,13 +570,15 @@ class Run(ExtraOps):
         t = self.ref(op["t"])
         if t is None:
             return
-        if not pred_cols(op["p"]) <= set(t.mv.cols):
+        if not pred_cols(op["p"]) <= set(t.mv.cols) or not self._only2_ok(t, op):
             return self.alias(op, t, "illtyped")
         tags = self.w.tags
         pe, bt = self._sqlr(t, op)
         self.factory(
             op, [t],
-            lambda: t.rel.with_rows_satisfying(build_pred(op["p"], tags), **self.flags(op)),
+            (lambda: self.shared_apply(op, t, lambda: __import__("lsst.daf.relation", fromlist=["Selection"]).Selection(
+                build_pred(op["p"], tags)))) if op.get("shared") else
+            (lambda: t.rel.with_rows_satisfying(build_pred(op["p"], tags), **self.flags(op))),
             lambda rel: self._umodel(t, op, rel, lambda v: M.m_sel(v, op["p"], pe, bt)),
         )
 
@@ -558,7 +591,8 @@ class Run(ExtraOps):
         pe, bt = self._sqlr(t, op)
         self.factory(
             op, [t],
-            lambda: t.rel.without_duplicates(**self.flags(op)),
+            (lambda: self.shared_apply(op, t, lambda: __import__("lsst.daf.relation", fromlist=["Deduplication"]).Deduplication()))
+            if op.get("shared") else (lambda: t.rel.without_duplicates(**self.flags(op))),
             lambda rel: self._umodel(t, op, rel, lambda v: M.m_dedup(v, pe, bt)),
         )
 
@@ -571,11 +605,15 @@ class Run(ExtraOps):
         for e, _ in terms:
             if not expr_cols(e) <= cols:
                 return self.alias(op, t, "illtyped")
+        if not self._only2_ok(t, op):
+            return self.alias(op, t, "illtyped")
         tags = self.w.tags
         pe, bt = self._sqlr(t, op)
         self.factory(
             op, [t],
-            lambda: t.rel.sorted([SortTerm(build_expr(e, tags), bool(asc)) for e, asc in terms], **self.flags(op)),
+            (lambda: self.shared_apply(op, t, lambda: __import__("lsst.daf.relation", fromlist=["Sort"]).Sort(
+                tuple(SortTerm(build_expr(e, tags), bool(asc)) for e, asc in terms)))) if op.get("shared") else
+            (lambda: t.rel.sorted([SortTerm(build_expr(e, tags), bool(asc)) for e, asc in terms], **self.flags(op))),
             lambda rel: self._umodel(t, op, rel, lambda v: M.m_sort(v, terms, pe, bt)),
         )
 
@@ -586,11 +624,12 @@ class Run(ExtraOps):
         start, stop = op["start"], op["stop"]
         if start < 0 or (stop is not None and stop < start):
             return self.alias(op, t, "illtyped")
-        if op.get("pe") is not None:
+        if op.get("pe") is not None or op.get("shared"):
             from lsst.daf.relation import Slice
 
             fl = self.flags(op)
-            self.factory(op, [t], lambda: Slice(start, stop).apply(t.rel, **fl),
+            self.factory(op, [t], (lambda: self.shared_apply(op, t, lambda: Slice(start, stop))) if op.get("shared") else
+                         (lambda: Slice(start, stop).apply(t.rel, **fl)),
                          lambda rel: self._umodel(t, op, rel, lambda v: M.m_slice(v, start, stop)))
         else:
             self.factory(op, [t], lambda: t.rel[start:stop], lambda rel: M.m_slice(t.mv, start, stop))
@@ -615,8 +654,10 @@ class Run(ExtraOps):
         if l is None:
             return
         shared = set(l.mv.cols) & set(r.mv.cols)
-        if any(c in NONKEY for c in shared):
+        if any(c in NONKEY for c in shared) and not (self.profile.structural_only and op.get("cmax") is not None):
             return self.alias(op, l, "illtyped")       # "unspecified" by the documentation
+        if op.get("cmax") is not None and not self.profile.structural_only:
+            return self.alias(op, l, "illtyped")
         p = op.get("p")
         if p is not None and not pred_cols(p) <= (set(l.mv.cols) | set(r.mv.cols)):
             return self.alias(op, l, "illtyped")
@@ -633,6 +674,12 @@ class Run(ExtraOps):
             must = RelationalAlgebraError
         def call():
             pred = build_pred(p, tags) if p is not None else None
+            if op.get("cmax") is not None:
+                from lsst.daf.relation import Join, Predicate
+
+                j = Join(pred if pred is not None else Predicate.literal(True), frozenset(),
+                         frozenset(tags[c] for c in op["cmax"]))
+                return j.partial(r.rel).apply(l.rel, **kw)
             if op.get("cc"):
                 from lsst.daf.relation import Join, Predicate
 
